@@ -10,7 +10,10 @@ pub mod c09;
 pub mod c12;
 pub mod c14;
 pub mod c15;
+pub mod c16;
+pub mod c17;
 pub mod c18;
+pub mod c20;
 
 use crate::report::{Local, Report};
 
@@ -30,6 +33,9 @@ pub fn table() -> Vec<(&'static str, RunFn, ReplayFn)> {
         ("C12", c12::run as RunFn, c12::replay as ReplayFn),
         ("C14", c14::run as RunFn, c14::replay as ReplayFn),
         ("C15", c15::run as RunFn, c15::replay as ReplayFn),
+        ("C16", c16::run as RunFn, c16::replay as ReplayFn),
+        ("C17", c17::run as RunFn, c17::replay as ReplayFn),
         ("C18", c18::run as RunFn, c18::replay as ReplayFn),
+        ("C20", c20::run as RunFn, c20::replay as ReplayFn),
     ]
 }
